@@ -226,7 +226,7 @@ def mutate(g, prog):
 def run(tier, seed, replay=None):
     v = common.Verdict("C05", tier, seed)
     rng = common.rng_for(seed, "C05", tier)
-    n_docs = 100 if tier == "quick" else 2000
+    n_docs = 300 if tier == "quick" else 2000
     jobs, meta = [], []
 
     def add(kind, clause, prop, prog, expect_accept, note=""):
